@@ -35,7 +35,7 @@ class C14R(Monitor):
             if kind == "grid":
                 adj = {}
                 for l in net.link_helper.links.values():
-                    a, b = (int(x) for x in l.link_id.split("-"))
+                    a, b = (int(x) for x in l.link_id.split("-")[:2])
                     adj.setdefault(a, {})[b] = l.distance_km / l.speed_kmph * 3600.0
                 self.adj = adj
             else:
